@@ -264,3 +264,28 @@ def handling_exception_sym(eng):
         h = f.cur_exc is not None or getattr(f, "in_exc_finally", 0) > 0
         f = None
     return VBool(h)
+
+
+@spec("uf", None, "application of an uninterpreted (pure, deterministic) function named by the first argument")
+def uf_sym(eng, name, *args):
+    from .models import to_val
+    from .values import Val
+    f = z3.Function("uf_" + name.s, *([Val] * len(args) + [Val]))
+    return VOpaque(f(*[to_val(eng, a) for a in args]), tag="uf:" + name.s)
+
+
+@spec("holds_lock", None, "some lock handle of this actor is open on exactly this path (owns, not closed)")
+def holds_lock_sym(eng, path):
+    from .models import to_val
+    from .values import VObj
+    pt = to_val(eng, path)
+    alts = []
+    for addr, o in eng.heap.items():
+        if isinstance(o, VObj) and o.cls == "_GitFile":
+            fn = o.fields.get("_filename")
+            owns = o.fields.get("owns")
+            closed = o.fields.get("_closed")
+            if fn is None or owns is None or closed is None:
+                continue
+            alts.append(z3.And(owns.t, z3.Not(closed.t), to_val(eng, fn) == pt))
+    return VBool(z3.Or(alts) if alts else z3.BoolVal(False))
